@@ -1692,6 +1692,36 @@ impl TransactionalMemory {
     }
 }
 
+// Verification hooks for C14 (add-only): see page_store/verif/alloc_mem.rs
+#[cfg(redb_verif)]
+impl TransactionalMemory {
+    pub(crate) fn verif_try_shrink(&self, force: bool) -> Result<bool> {
+        let mut state = self.state.lock().unwrap();
+        Self::try_shrink(&mut state, force)
+    }
+
+    pub(crate) fn verif_allocator_state(&self) -> (Vec<Vec<u8>>, Vec<u8>, (u32, u32, Option<u32>)) {
+        let state = self.state.lock().unwrap();
+        let allocators = state.allocators();
+        let layout = state.header.layout();
+        (
+            allocators
+                .region_allocators
+                .iter()
+                .map(BuddyAllocator::to_vec)
+                .collect(),
+            allocators.region_tracker.to_vec(),
+            (
+                layout.full_region_layout().num_pages(),
+                layout.num_full_regions(),
+                layout
+                    .trailing_region_layout()
+                    .map(super::layout::RegionLayout::num_pages),
+            ),
+        )
+    }
+}
+
 #[cfg(test)]
 mod test {
     use crate::tree_store::page_store::page_manager::INITIAL_REGIONS;
